@@ -146,6 +146,10 @@ def canon(v):
 
 # texts that stand for FALSY python values when used as the answer of an interrupt
 FALSY = {"": "", "[]": [], "0": 0, "False": False}
+# texts that stand for python values other than strings wherever the harness hands values to the library
+# (bound values, provided values, interrupt answers); canon() maps the python values back to these texts
+SPECIAL = dict(FALSY)
+SPECIAL["~none"] = None
 
 
 def answer_text(nd, j):
@@ -153,7 +157,7 @@ def answer_text(nd, j):
 
 
 def pyval(text):
-    v = FALSY.get(text, text)
+    v = SPECIAL.get(text, text) if isinstance(text, str) else text
     return list(v) if isinstance(v, list) else v
 
 
